@@ -119,3 +119,27 @@ Example arrays_example :
   op_eq (JArr [JInt 1; JInt 2]) (JArr [JInt 1]) = false /\
   op_eq (JArr [JInt 1]) (JArr [JInt 2]) = false.
 Proof. vm_compute. repeat split. Qed.
+
+(* strings are ordered by stringCompare (signed bytes, then length), consistently for all six operators *)
+Theorem str_order : forall s t,
+  op_lt (JStr s) (JStr t) = (string_compare s t <? 0) /\
+  op_gt (JStr s) (JStr t) = (0 <? string_compare s t) /\
+  op_le (JStr s) (JStr t) = (string_compare s t <=? 0) /\
+  op_ge (JStr s) (JStr t) = (0 <=? string_compare s t).
+Proof.
+  intros s t. unfold op_lt, op_gt, op_le, op_ge.
+  rewrite compare_scalar by (intros; discriminate).
+  cbn [compare_step]. unfold str_cmp. cbv zeta.
+  rewrite (string_compare_swap t s).
+  destruct (Z.ltb_spec (- string_compare s t) 0) as [H1|H1];
+    [|destruct (Z.ltb_spec 0 (- string_compare s t)) as [H2|H2]]; cbn [cmp_rev].
+  - destruct (Z.ltb_spec (string_compare s t) 0); [lia|]. destruct (Z.ltb_spec 0 (string_compare s t)); [|lia].
+    destruct (Z.leb_spec (string_compare s t) 0); [lia|]. destruct (Z.leb_spec 0 (string_compare s t)); [|lia].
+    repeat split.
+  - destruct (Z.ltb_spec (string_compare s t) 0); [|lia]. destruct (Z.ltb_spec 0 (string_compare s t)); [lia|].
+    destruct (Z.leb_spec (string_compare s t) 0); [|lia]. destruct (Z.leb_spec 0 (string_compare s t)); [lia|].
+    repeat split.
+  - destruct (Z.ltb_spec (string_compare s t) 0); [lia|]. destruct (Z.ltb_spec 0 (string_compare s t)); [lia|].
+    destruct (Z.leb_spec (string_compare s t) 0); [|lia]. destruct (Z.leb_spec 0 (string_compare s t)); [|lia].
+    repeat split.
+Qed.
